@@ -833,4 +833,11 @@ def isOkFalse : Except MsgSigning.Err Bool → Bool | .ok false => true | _ => f
 #guard ["!!!!", "abc", "a", "", "é", "IMFV6wZU", "AAAAAAAAAAAAAAAAAAAAAAAAAAAAAAAAAAAAAAAAAAAAAAAAAAAAAAAAAAAAAAAAAAAAAAAAAAAAAAAAAAAAAAAAAAAAAA=="].all
   fun t => isOkFalse (verifyMessage testEnv (.text "x".toList) t.toList (some "m".toList))
 
+/-- C17.sign_needs_private: a key object without a secret exponent cannot sign (`ValueError`), whatever the message;
+with one, signing is `sign_message` on that exponent -/
+theorem C17_sign_needs_private (env : Env) (comp verbose : Bool) (message : Str) :
+    signMessageWithKey env none comp message verbose = .error .valueError ∧
+    ∀ d, signMessageWithKey env (some d) comp message verbose = signMessage env d comp message verbose :=
+  ⟨rfl, fun _ => rfl⟩
+
 end Pycoin.MsgSigning
